@@ -5,7 +5,7 @@ cd /verif
 export GOFLAGS=-mod=mod GOPROXY=off GOSUMDB=off GOTOOLCHAIN=local
 export GOCACHE=${GOCACHE:-/verif/.work/gocache}
 mkdir -p .work evidence replays
-cp -f /repo/go.sum go.sum
+cat /repo/go.sum extra.sum | sort -u > go.sum
 go1.26 build -tags verif -o .work/kv ./cmd/kv
 go1.26 vet -tags verif ./specmodel/ >/dev/null 2>&1 || true
 echo "setup ok"
